@@ -43,7 +43,8 @@ def _case(draw):
     empty_table = kind == "interaction" and draw(st.booleans())
     table = None
     if kind == "interaction":
-        table = [] if empty_table else draw(S.effect_table(S.full_table_pairs(sc["ns"], sc["nt"])))
+        # insertion order of the table is arbitrary (e.g. several add_observations calls): draw a permutation of the keys
+        table = [] if empty_table else draw(S.effect_table(draw(st.permutations(S.full_table_pairs(sc["ns"], sc["nt"])))))
     D = draw(st.integers(1, 2))
     n_chains = draw(st.integers(1, 4))
     chains = []
